@@ -130,6 +130,30 @@ pub fn data(kind: &str, n: usize, r: &mut StdRng) -> Vec<u8> {
             v[at..at + b.len()].copy_from_slice(&b);
             m += 31745;
         }
+    } else if kind == "fibo" {
+        // symbol frequencies following the Fibonacci sequence: an unrestricted Huffman code would be
+        // deeper than 15 bits, so the encoder has to length-limit it
+        let mut pool: Vec<u8> = Vec::new();
+        let (mut a, mut b) = (1usize, 1usize);
+        let mut sym = 0u8;
+        while pool.len() < n && sym < 40 {
+            for _ in 0..a.min(n - pool.len()) {
+                pool.push(sym.wrapping_mul(7).wrapping_add(3));
+            }
+            let c = a + b;
+            a = b;
+            b = c;
+            sym += 1;
+        }
+        while pool.len() < n {
+            pool.push(sym.wrapping_mul(7).wrapping_add(3));
+        }
+        // shuffle so that matches stay rare
+        for i in (1..pool.len()).rev() {
+            let j = r.gen_range(0..=i);
+            pool.swap(i, j);
+        }
+        v = pool;
     } else if kind == "litmatch" {
         // mostly literals with plenty of short, overlapping repeats at varying distances: the lazy
         // matcher frequently has a deferred match pending, and the LZ code buffer fills up
